@@ -364,6 +364,9 @@ def run(rc):
 def replay(data):
     import tatsu.parproc  # noqa
     d = data['detail']
+    if 'modes' not in d or 'choices' not in d:
+        from ..replay import replay_by_rerun
+        return replay_by_rerun(sys.modules[__name__], data)
     modes = tuple(d['modes'])
     w = d.get('max_workers', 1)
     seq = run_parproc(Chooser(), modes, w, parallel=False)
